@@ -5,6 +5,7 @@ import (
 	"encoding/json"
 	"fmt"
 	"io"
+	"strconv"
 	"strings"
 
 	"github.com/robfig/soy/data"
@@ -78,7 +79,9 @@ type c08State struct {
 	cc       *sut.Compiled
 	data     []data.Map
 	ill      []data.Map
-	nild     []data.Map // hand-built data with Go nils inside
+	nild     []data.Map  // hand-built data with Go nils inside
+	structs  []*poolData // the data sets as Go structs, rendered through Tofu.Render (by pointer)
+	edits    []int       // how many times the caller has edited structs[i] in place
 	ij       []data.Map
 	cats     map[int]soymsg.Bundle
 	reused   map[string]*soyhtml.Renderer
@@ -114,6 +117,26 @@ func (st *c08State) modelRender(op c08Op, ill bool) (modelOut, error) {
 	tofu := strings.HasPrefix(op.Op, "render-tofu")
 	nils := strings.HasSuffix(op.Op, "-nils")
 	key := fmt.Sprintf("%s|%d|%d|%d|%v|%v|%v", op.Template, op.Data, op.IJ, op.Cat, ill, tofu, nils)
+	if op.Op == "render-struct" {
+		// the model renders a struct built afresh from the pristine data with the caller's edits applied
+		key += fmt.Sprintf("|struct%d", st.edits[op.Data])
+		if m, ok := st.model[key]; ok {
+			return m, nil
+		}
+		cc, err := sut.Compile(st.cs.Bundle)
+		if err != nil {
+			return modelOut{}, err
+		}
+		p := toPoolData(st.cs.Bundle.Data[op.Data])
+		for k := 0; k < st.edits[op.Data]; k++ {
+			editStruct(p, k)
+		}
+		var buf bytes.Buffer
+		rerr, esc := structRender(cc, &buf, op.Template, p)
+		m := modelOut{out: buf.Bytes(), err: rerr != nil, esc: esc != nil}
+		st.model[key] = m
+		return m, nil
+	}
 	if m, ok := st.model[key]; ok {
 		return m, nil
 	}
@@ -147,6 +170,33 @@ func (st *c08State) modelRender(op c08Op, ill bool) (modelOut, error) {
 	m := modelOut{out: buf.Bytes(), err: rerr != nil, esc: esc != nil}
 	st.model[key] = m
 	return m, nil
+}
+
+// editStruct is the k-th in-place edit the caller makes to its own struct value between renders.
+func editStruct(p *poolData, k int) {
+	if len(p.Xs) > 0 {
+		p.Xs[k%len(p.Xs)] = int64(100 + k)
+	}
+	if len(p.Ss) > 0 {
+		p.Ss[0] = "edited" + strconv.Itoa(k)
+	}
+	p.M.B = "m-edited" + strconv.Itoa(k)
+	if len(p.Ms) > 0 {
+		p.Ms[0].A = int64(k)
+	}
+}
+
+// structRender renders a Go struct (by pointer) through Tofu.Render.
+func structRender(cc *sut.Compiled, w io.Writer, name string, p *poolData) (err error, esc *sut.Escape) {
+	defer func() {
+		if r := recover(); r != nil {
+			if simrt.IsAbort(r) {
+				panic(r)
+			}
+			esc = &sut.Escape{Value: fmt.Sprint(r), Site: "Tofu.Render"}
+		}
+	}()
+	return cc.Tofu.Render(w, name, p), nil
 }
 
 // withNils returns the data map with Go nils put where a hand-built data.Map may have them: an
@@ -242,6 +292,8 @@ func c08Exec(cs *c08Hist, counters map[string]int64) (*wk.Failure, int) {
 		st.data = append(st.data, d.Map())
 		st.ill = append(st.ill, illTyped(d, i).Map())
 		st.nild = append(st.nild, withNils(d.Map()))
+		st.structs = append(st.structs, toPoolData(d))
+		st.edits = append(st.edits, 0)
 	}
 	for _, d := range cs.Bundle.IJ {
 		st.ij = append(st.ij, d.Map())
@@ -260,8 +312,15 @@ func c08Exec(cs *c08Hist, counters map[string]int64) (*wk.Failure, int) {
 		}
 		what := fmt.Sprintf("op %d (%s %s)", i, op.Op, op.Template)
 		counters["op_"+op.Op]++
+		if op.Op == "edit-struct" {
+			// the caller changes its own data in place; what it renders next must show it
+			editStruct(st.structs[op.Data], st.edits[op.Data])
+			st.edits[op.Data]++
+			done++
+			continue
+		}
 		switch op.Op {
-		case "render", "render-reused", "render-illtyped", "render-writerfault", "render-panic", "render-tofu", "render-nils", "render-tofu-nils":
+		case "render", "render-reused", "render-illtyped", "render-writerfault", "render-panic", "render-tofu", "render-nils", "render-tofu-nils", "render-struct":
 			ill := op.Op == "render-illtyped"
 			m, err := st.modelRender(op, ill)
 			if err != nil {
@@ -299,6 +358,8 @@ func c08Exec(cs *c08Hist, counters map[string]int64) (*wk.Failure, int) {
 				}
 				rd.Inject(st.ij[op.IJ])
 				rerr = rd.Execute(w, d)
+			} else if op.Op == "render-struct" {
+				rerr, esc = structRender(cc, w, op.Template, st.structs[op.Data])
 			} else if strings.HasPrefix(op.Op, "render-tofu") {
 				rerr, esc = tofuRender(cc, w, op.Template, d)
 			} else {
@@ -450,6 +511,10 @@ func c08History(r *simrt.RNG, gc *gen.Case, maxLen int) *c08Hist {
 		switch x := r.Intn(100); {
 		case x < 30:
 			op.Op = "render"
+		case x < 32:
+			op.Op = "render-struct"
+		case x < 34:
+			op.Op = "edit-struct"
 		case x < 36:
 			op.Op = "render-tofu"
 		case x < 38:
